@@ -9,23 +9,33 @@ from datetime import datetime, timezone
 from refpgp import keys as rkeys
 
 _RAW = None
+_SPECIAL = {}
 T0 = 1500000000          # 2017-07-14, default creation time of fixture keys
 
 
 def raw(name, created=T0):
     global _RAW
     if _RAW is None:
-        with open(os.path.join(os.path.dirname(os.path.dirname(os.path.abspath(__file__))), 'fixtures', 'keys.json')) as f:
+        d = os.path.join(os.path.dirname(os.path.dirname(os.path.abspath(__file__))), 'fixtures')
+        with open(os.path.join(d, 'keys.json')) as f:
             _RAW = json.load(f)
+        with open(os.path.join(d, 'keys_special.json')) as f:
+            _SPECIAL.update(json.load(f))
+            _RAW.update(_SPECIAL)
     k = copy.deepcopy(_RAW[name])
     k['created'] = created
     k['name'] = name
     return k
 
 
-def names():
+def names(special=False):
     raw('ed25519a')
-    return sorted(_RAW)
+    return sorted(n for n in _RAW if special or n not in _SPECIAL)
+
+
+def special_names():
+    raw('ed25519a')
+    return sorted(_SPECIAL)
 
 
 def dt(t):
